@@ -7,7 +7,8 @@ py/harness/pm_foot_corr.py).
   fixed 67bf2ca  footnote-policy-block-crash        was `policy_block_crashes : paginateFoot wBlock 20 = none`
   fixed 8db5909  footnote-named-page-lost           was `named_page_loses_footnote` (footnote 6 taken, never rendered)
   fixed 8db5909  footnote-named-page-area-overlap   was `page_bottom_drifts` (page_bottom 24 → 36, line over the area)
-  finding        footnote-area-negative-margin-overflow   `area_negative_margin_overflows` (C03)
+  fixed 84e5b27  footnote-area-negative-margin-overflow   was `area_negative_margin_overflows` (emptied area, −4px margin)
+  finding        footnote-area-negative-margin-box        `area_negative_margin_box_overflows` (C03)
 -/
 import WpModel.Props.C01Foot
 import WpModel.Props.C03Foot
@@ -111,32 +112,59 @@ theorem page_bottom_no_drift :
 `C03FootGeo.paginate_line_fits`. -/
 example : AreaHyp wDrift.area := ⟨by decide +kernel⟩
 
-/-! ### still false of the code: a footnote area with a negative top margin -/
+/-! ### an emptied footnote area with a negative top margin (repair 84e5b27) -/
 
 /-- 6 lines of 10px on a 46px page; line 1 calls a 50px footnote that cannot fit and is postponed; the `@footnote`
-area has `margin-top: -4px`. `report_footnote` empties the area: `_update_footnote_area` sets its height to 0 and
-subtracts `margin_height() = -4` from `context.page_bottom`, which becomes 50 — 4px *below* the page box — although
-no footnote area is rendered on the page. Line 4 (40 … 50) is then accepted on page 1. -/
+area has `margin-top: -4px`. Before the repair `report_footnote` left the emptied area with height 0 and its margin
+height −4 subtracted from `context.page_bottom` (46 → 50): line 4 (40 … 50) was accepted on page 1. -/
 def wNeg : FDoc :=
   { exDocOf 46 [.para 1 6 10 exSt [⟨1, 1, 5, 10, .auto⟩]] with area := { exArea with mt := -4 } }
 
-/-- **W (C03)**: a line that is not the first of its page ends below the page box (50 > 46); page 1 has no
-footnote area. The hypothesis `AreaHyp` of `C03FootGeo.paginate_line_fits` (decorations sum ≥ 0) is necessary. -/
-theorem area_negative_margin_overflows :
+/-- **Regression (C03, was W `area_negative_margin_overflows`)**: the emptied area takes no room, `page_bottom` is
+the page box bottom again, line 4 goes to page 2 (per page: line bottoms, area top, footnotes rendered). -/
+theorem area_emptied_takes_no_room :
     (paginateFoot wNeg 20).map (fun ps => ps.map (fun p =>
       ((placedLines p.page.root true (C03FootGeo.pageSourceF wNeg p).erase).map (fun l => l.y + l.lineH),
        p.area.map (fun a => a.y), shownFids p))) =
-    some [([10, 20, 30, 40, 50], none, []), ([10], some 0, [1])] ∧ wNeg.pageH = 46 := by
+    some [([10, 20, 30, 40], none, []), ([10], some 0, [1]), ([10], none, [])] ∧ wNeg.pageH = 46 := by
   constructor
   · decide +kernel
   · rfl
 
-/-- Everything but `AreaHyp` holds of `wNeg`. -/
-example : DecoOk wNeg.root.erase ∧ HeightsOk wNeg.root ∧ ¬ AreaHyp wNeg.area := by
+/-- The state after `report_footnote` emptied the area is the state before any footnote was laid out. -/
+example :
+    let c : FCtx := { area := { exArea with mt := -4 }, pageH := 46, currentPage := 1, forcedBreak := false, tbl := [] }
+    let f : Fn := ⟨1, 5, 10, .auto, ""⟩
+    let fs : FState := { pending := [f], cur := [], reported := [], pageBottom := 46, areaH := none }
+    ((reportFootnote c (layoutFootnote c fs f).1 f).areaH, (reportFootnote c (layoutFootnote c fs f).1 f).pageBottom) =
+      (none, 46) := by decide +kernel
+
+/-! ### still false of the code: a non-empty footnote area whose margin box has a negative height -/
+
+/-- 7 lines of 10px on a 46px page; line 0 calls a 10px footnote, which fits; the `@footnote` area has
+`margin-top: -14px`, more than the content is high: the margin box of the area is −4px high,
+`_update_footnote_area` subtracts −4 from `context.page_bottom` (46 → 50) and line 4 (40 … 50) is accepted on page 1
+(the footnote body itself is drawn at 36 … 46, over lines 3 and 4). -/
+def wNegBox : FDoc :=
+  { exDocOf 46 [.para 1 7 10 exSt [⟨0, 1, 1, 10, .auto⟩]] with area := { exArea with mt := -14 } }
+
+/-- **W (C03)**: a line that is not the first of its page ends below the page box (50 > 46) while the page shows a
+footnote area. The hypothesis `AreaHyp` of `C03FootGeo.paginate_line_fits` (decorations sum ≥ 0) is necessary. -/
+theorem area_negative_margin_box_overflows :
+    (paginateFoot wNegBox 20).map (fun ps => ps.map (fun p =>
+      ((placedLines p.page.root true (C03FootGeo.pageSourceF wNegBox p).erase).map (fun l => l.y + l.lineH),
+       p.area.map (fun a => a.y), shownFids p))) =
+    some [([10, 20, 30, 40, 50], some 50, [1]), ([10, 20], none, [])] ∧ wNegBox.pageH = 46 := by
+  constructor
+  · decide +kernel
+  · rfl
+
+/-- Everything but `AreaHyp` holds of `wNegBox`. -/
+example : DecoOk wNegBox.root.erase ∧ HeightsOk wNegBox.root ∧ ¬ AreaHyp wNegBox.area := by
   refine ⟨?_, ?_, ?_⟩
-  · simp [wNeg, exDocOf, FootBox.erase, eraseList, DecoOk, DecoOkList, PStyle.DecoOk, exSt]
+  · simp [wNegBox, exDocOf, FootBox.erase, eraseList, DecoOk, DecoOkList, PStyle.DecoOk, exSt]
     decide +kernel
-  · simp only [wNeg, exDocOf, HeightsOk, HeightsOkList, List.mem_cons, List.not_mem_nil, or_false,
+  · simp only [wNegBox, exDocOf, HeightsOk, HeightsOkList, List.mem_cons, List.not_mem_nil, or_false,
       forall_eq_or_imp, forall_eq, and_true]
     decide +kernel
   · intro h
